@@ -67,6 +67,14 @@ CHECKS = {
             "Legendre remainder bound, guarded slope and add-a-degree rules; library evaluator vs own evaluator.",
             "Trusts mpmath; local coordinates are defined by the library's own map measured as affine; both time directions of the Coriolis term accepted (L3 uses the reversed one, Note N-1); slope rules asserted only where the exact remainder is asymptotic.",
             "DESIGN.md §4 C07"),
+    "C08": ("exploration",
+            "Hypothesis-generated (mu, point, degree) pipelines and synthetic Hamiltonians; coefficient-pattern oracle with conditioning-derived rounding allowance; conjugacy, canonicity and inverse by radius-ladder slope tests in long double on decoded coefficients; independent SciPy-integrated generator flows; polyref exact Jacobians",
+            "Both Lie routines on pipeline and synthetic inputs (non-resonant, free and exactly resonant frequency sets): every coefficient of the partial and full normal forms is "
+            "decoded and classified (k0 == k3 resp. resonant within the library's 1e-14); H_new = H_old o Phi to O(r^(N+1)) for the library's forward series and, independently, for the "
+            "numerically integrated time-one flows of G_3..G_N (so swapped series or a wrong sign convention is visible); DPhi^T J DPhi - J = O(r^N); Phi^-1 o Phi and Phi o Phi^-1 = id "
+            "to O(r^(N+1)); _evaluate_transform agrees with the decoded series.",
+            "(mu, N, polynomial, directions) sampled; orders judged on the finest rungs above a stated rounding floor and a failure needs six consecutive low slopes, so a defect of order exactly N is decidable only for N <~ 8; the full-normal-form coordinate series comes from a direct _lie_expansion call.",
+            "DESIGN.md §4 C08"),
     "C09": ("exploration",
             "generated amplitude ladders (batch-RMS) for the round-trip and energy scaling laws r^(N+1) against a 40-digit energy oracle and an own evaluator of H_cm; constructed section points with a unique-root precheck",
             "Catalogue systems and generated mu x L1/L2 x degree 4/6 (quick) 4..10 (thorough): for batches of generated directions on S^3 the round trip to_cm(to_synodic(p)) - p and "
